@@ -17,7 +17,8 @@ EXPLANATION = ("Registries. R1 lock discipline: every access to LoggerManager::_
                "unused sinks were pruned, and only for names reported as removed. R5: the sink registry holds sinks weakly, loggers "
                "strongly; an entry is pruned exactly when expired; destroying a file sink closes its file. R6 (sorted registries, sibling "
                "agreement): insert and lookup order the registry identically, and a re-created sink is inserted in front of an expired "
-               "entry of the same name because the lookup inspects the first entry of a name.")
+               "entry of the same name because the lookup inspects the first entry of a name."
+               ' R1e: nothing that can throw more than an allocation failure runs between an explicit lock() and unlock(). R8: Frontend::remove_logger reaches the registry. R9: CsvWriter creates its own logger and removes it with the blocking form.')
 NOT_DECIDED = ("Use-after-free over all interleavings of user log calls with removal (the API contract forbids logging after "
                "removal), destruction order of shared sinks as behaviour.")
 ASSUMPTIONS = ["user code does not log through a logger after removing it (documented contract)"]
@@ -73,6 +74,7 @@ def run(ctx):
         r5(ctx, facts, cfg)
         r6(ctx, facts, cfg)
         r7_lookup(ctx, facts, cfg)
+        r9_csv_writer(ctx, facts, cfg)
         # the public entry point reaches the registry: Frontend::remove_logger(l) calls LoggerManager::remove_logger(l)
         from rules.common import forwards
         forwards(ctx, facts, cfg, "C17.R8", "quill::FrontendImpl::remove_logger", r"LoggerManager::remove_logger$",
@@ -578,3 +580,36 @@ def r6(ctx, facts, cfg):
                    "the registry may still hold an expired entry of the same name (the user dropped the last reference after the last "
                    "pruning); the lookup inspects the first entry of that name (%s), so a re-created sink must be inserted in front of it "
                    "(%s) — otherwise every later lookup sees the expired entry and creates yet another sink on the same file" % (af, ai), fn=fi)
+
+
+def r9_csv_writer(ctx, facts, cfg):
+    """R9: a CsvWriter owns a logger of its own for the time it lives: every constructor creates (or gets) the logger under the class's
+    name prefix + the caller's name, and the destructor removes it with the *blocking* form — when the destructor has returned the
+    logger is gone and its file closed, so a writer for the same file can be created again (the non-blocking form returns while the
+    old logger, with the file still open, may still exist)."""
+    dt = [f for f in facts.fns if f.config == cfg and f.rec.get("dtor") and short(f.cls or "") == "quill::CsvWriter"]
+    if not dt:
+        raise AnalysisBroken("~CsvWriter not instantiated in the witness")
+    for f in dt[:2]:
+        g = f.g
+        rb = [c for c in f.calls(r"FrontendImpl<.*>::remove_logger_blocking$")]
+        rp = npos(f, rb)
+        ok = bool(rb) and all(c.get("args") and is_this_field(strip(c["args"][0], casts=True), "_logger") for c in rb) and \
+            not g.exists_path([g.entry_node], [g.exit_node], avoid_nodes=rp)
+        ctx.ob("C17.R9a", "CsvWriter<%s>::~CsvWriter:blocking-removal" % f.name.split("CsvWriter<")[1].split(">::")[0][-40:], ok,
+               "the destructor calls remove_logger_blocking(_logger) on every path (not the non-blocking form)", fn=f)
+    ct = [f for f in facts.fns if f.config == cfg and f.rec.get("ctor") and short(f.cls or "") == "quill::CsvWriter" and f.rec.get("params") and
+          "CsvWriter" not in (f.rec["params"][0].get("ty") or "")]
+    ctx.floor("C17.R9b", "CsvWriter constructors instantiated", len(ct), 1)
+    for f in ct[:6]:
+        g = f.g
+        mk = [n for n in f.walk() if n["k"] == "BinaryOperator" and n["op"] == "=" and is_this_field(n["lhs"], "_logger") and
+              any(is_call(x, r"FrontendImpl<.*>::create_or_get_logger$") for x in walk(n["rhs"]))]
+        p0 = f.rec["params"][0]["did"]
+        named = bool(mk) and all(any(is_this_field(x, "_logger_name_prefix") or (x["k"] == "MemberExpr" and x.get("mname") == "_logger_name_prefix") or
+                                     (x["k"] == "DeclRefExpr" and "_logger_name_prefix" in (x.get("name") or "")) for x in walk(n["rhs"])) and
+                                 any(var_ref(x) == p0 for x in walk(n["rhs"])) for n in mk)
+        thr = [q for x in f.walk() if x["k"] == "CXXThrowExpr" for q in g.positions(x)]
+        every = bool(mk) and not g.exists_path([g.entry_node], [g.exit_node], avoid_nodes=npos(f, mk) + thr)
+        ctx.ob("C17.R9b", "CsvWriter::CsvWriter(%s):own-logger" % (f.rec["params"][1].get("ty") if len(f.rec["params"]) > 1 else "")[:30], named and every,
+               "_logger is set on every path from create_or_get_logger(prefix + the caller's name, ...) (%s, %s)" % (named, every), fn=f)
